@@ -233,6 +233,25 @@ CompositeOK(fn, q) ==
         /\ JetHHD(CompositeB(B!THHD, fn, xh)) = A!ChainA(JetHHD(xh), tw)
 Composites == {"tan", "tanh", "sph_j0", "sph_j1", "sph_j2"}
 
+\* C09: the closed forms of powi / powf (through pow3 = x^(n-3)) equal the generalised
+\* binomial tower  x^n, n x^(n-1), n(n-1) x^(n-2), n(n-1)(n-2) x^(n-3).  The coefficients
+\* are polynomials of degree <= 3 in n, so agreement at more than four exponents per base
+\* is agreement for every exponent.
+PowEnv(q, nq) == [g \in {"p", "n"} |-> IF g = "n" THEN PConst(nq) ELSE PPowf(PConst(q), QSub(nq, QInt(3)))]
+PowTowerAt(q, nq) == LET t == TowerAt("pow", q) IN [k \in 1..5 |-> PSubst(t[k], PowEnv(q, nq))]
+PowfOK(q, nq) ==
+    LET bt == B!PowfTowerB(PConst(q), nq, 3)  at == PowTowerAt(q, nq)
+    IN  \A k \in 1..4 : bt[k] = at[k]
+PowiOK(q, n) ==
+    LET bt == B!PowiTowerB(PConst(q), n, 3)  at == PowTowerAt(q, QInt(n))
+    IN  \A k \in 1..4 : bt[k] = at[k]
+\* (squares as bases: every half-integer power is rational, so that x^n, x^(n-1), ... computed
+\*  separately by the code can be compared exactly with p x^3, p x^2, ...)
+PowBases == {<<4, 1>>, <<9, 4>>, <<1, 4>>}
+PowBasesI == {<<2, 1>>, <<1, 2>>, <<3, 1>>, <<-2, 1>>, <<-1, 2>>, <<-3, 2>>}
+PowExpsF == {<<1, 2>>, <<5, 2>>, <<3, 2>>, <<-1, 2>>, <<-3, 2>>, <<3, 1>>, <<4, 1>>, <<-1, 1>>}
+PowExpsI == {-5, -4, -3, -2, -1, 3, 4, 5, 6, 7}
+
 ---------------------------------------------------------------------------
 (* export for the float harness *)
 PolyJson(pp) ==
@@ -250,10 +269,14 @@ Next ==
        /\ \/ \E fn \in TowerFns : \E q \in Pts(fn) : ob' = [k |-> "closed", fn |-> fn, q |-> q]
           \/ \E fn \in Composites : \E q \in Pts(fn) : ob' = [k |-> "composite", fn |-> fn, q |-> q]
           \/ \E fn \in AllFns : ob' = [k |-> "export", fn |-> fn]
+          \/ \E q \in PowBases, nq \in PowExpsF : ob' = [k |-> "powf", q |-> q, n |-> nq]
+          \/ \E q \in PowBasesI, n \in PowExpsI : ob' = [k |-> "powi", q |-> q, n |-> n]
 Spec == Init /\ [][Next]_ob
 
 TowersAgree ==
     /\ ob.k = "closed" => ClosedFormOK(ob.fn, ob.q) /\ GatingOK(ob.fn, ob.q)
     /\ ob.k = "composite" => CompositeOK(ob.fn, ob.q)
+    /\ ob.k = "powf" => PowfOK(ob.q, ob.n)
+    /\ ob.k = "powi" => PowiOK(ob.q, ob.n)
 Export == ob.k = "export" => PrintT(<<"TOWER", ToJson(TowerJson(ob.fn))>>)
 =============================================================================
